@@ -11,7 +11,7 @@ from ..model import AnalysisError, dotted, norm
 from ..report import Report
 from .. import sym
 from .common import own_nodes, returns
-from .symutil import S, arg, branches, dnf, is_, mentions, sh, unobj
+from .symutil import S, arg, branches, dnf, is_, mentions, sh, unobj, has
 
 EXPLANATION = (
     "TYPECMP: a value whose declared type admits an array (np.ndarray / Sequence / ArrayLike) as well as a string mode literal is never compared with `==`/`!=` to a string literal in a truth context "
@@ -127,6 +127,17 @@ def run(E: Engine, rep: Report, tier: str) -> dict:
             for mz in zeros:
                 z = mz["Q_z"]
                 ok = ok or (z[0] == "elem" and is_(unobj(z[1]), "set(self.eigenstates) - {Q_one}", {"Q_one": mo["Q_one"]}) is not None and sym.contains(mo["Q_one"], sym.Pattern("self.infer_one_state()").term))
+    # the conversion is done in ONE pass over all eigenstates (str.translate with a table eigenstate -> '1' if it is the
+    # one-state else '0'): chained str.replace calls overwrite the bits written first when an eigenstate is itself named
+    # '0' or '1'
+    chained = ok
+    for k_ in keys_:
+        for t in sym.subterms(k_):
+            if t[0] == "call" and t[1][0] == "attr" and t[1][2] == "translate" and t[2]:
+                m_ = has(t[2][0], "'1' if Q_e == Q_one else '0'")
+                ok = ok or (m_ is not None and sym.contains(m_["Q_one"], sym.Pattern("self.infer_one_state()").term) and mentions(t[2][0], "eigenstates"))
+    if chained:
+        rep.violation("TABLE", "QutipState.bitstring_probabilities|single-pass-conversion", "bitstring_probabilities converts the state labels with chained str.replace (one-state -> '1', then every other eigenstate -> '0'): with eigenstates ('0', '1') and one_state='0' the freshly written '1's are overwritten ('01' -> '11' -> '00')", E.where(bp))
     rep.check(ok, "TABLE", "QutipState.bitstring_probabilities|one->1-others->0", "the one-state reads 1, every other eigenstate reads 0", "bitstring conversion changed: the key must replace the inferred one-state by '1' and every other eigenstate by '0'", E.where(bp))
     # every option of the configuration a backend accepts is consumed by that backend (an option that is accepted and
     # then ignored -- e.g. the sampling rate -- makes the two backends emulate different things for the same input)
